@@ -1,0 +1,14 @@
+//go:build verif
+
+package scram
+
+// Machine-checked contracts (govc, see /verif/DESIGN.md). Comment-only file.
+
+//@ property C18
+
+// A failed step of the SCRAM conversation is never swallowed: the error of Step reaches the caller of Next, which is
+// what makes authenticateSASL abort and the dial fail.
+//@ func (*session).Next
+//@   option noframe
+//@   modifies region($stepFailed)
+//@   ensures s.convo.$stepFailed ==> result2 != nil
